@@ -18,17 +18,20 @@ from simkit.ddmin import ddmin_list, greedy_replace
 from simkit.eventlog import EventLog, digest_of
 from simkit.snapshot import token_core, doc_snapshot, errors_snapshot
 
-UNLEXABLE = ['€', '§', 'ß', 'µ', '¿', '\x01', '\xa0']
+UNLEXABLE = ['€', '§', 'ß', 'µ', '¿', '\x01', '\xa0', '٤', '８', '²']          # the last three are digits only to str.isdigit()/\\d, not to the lexer
 TRUNCATED = ['4', '8.', '16%', '*clef', '*M', '*M4/', '*k[f#', '*met(c', '*MM', '*xywh-1:1,2', '*>[A', '*staff', '*tb', '*rscale:']
 LEADING = ['#4c', '4#c', 'q', 'L', '4L', ';']
 BAD_CHORD = ['4c 4', '4c  4e', '4c 4€e']
 TAIL_FIXED = ['4czz', '=1zz', '*clefG2zz', '4c##-', '4cLzz', '4rzz', '*M4/4zz', '4c 4ezz']
 TRAILING = ['4c4', 'c4']
 NULL_LIKE = ['..', '...', '.*', '*.', '. .', '*.*', '.. .']
+# cells that the grammar accepts but whose parse-tree walk raises (a beamed rest): the failure comes from the listener, mid-chord or not
+WALK_RAISES = ['8rL 8c', '8rL', '16rL 16e 16g', '4c 8rJ', '8rK 8c 8e']
+FULLWIDTH = {'0': '０', '1': '１', '2': '２', '3': '３', '4': '４', '5': '５', '6': '６', '7': '７', '8': '８', '9': '９'}
 # separator characters inside malformed text: (text, family)
 SEPARATOR = [('4c@', 'tail'), ('a@b', 'tail'), ('4zz@', 'strict'), ('@', 'strict'), ('4c·', 'strict'), ('4·zz', 'strict'), ('·', 'strict')]
 
-STRICT_KINDS = ('unlexable-adjacent', 'truncated', 'wrong-order-leading', 'bad-chord')
+STRICT_KINDS = ('unlexable-adjacent', 'truncated', 'wrong-order-leading', 'bad-chord', 'unicode-digit')
 HEADER_CATEGORY = {'**text': 'LYRICS', '**dynam': 'DYNAMICS', '**dyn': 'DYNAMICS', '**harm': 'HARMONY', '**mxhm': 'HARMONY', '**fing': 'FINGERING'}
 KERN_PARSED = ('**kern', '**root')     # headers whose importer raises on malformed text
 
@@ -54,7 +57,17 @@ def malformed_for(rng, carrier: str, kinds=None):
             or carrier.startswith('*>')):
         carrier = '4c'
     kind = seeds.weighted(rng, [('unlexable-adjacent', 6), ('truncated', 3), ('wrong-order-leading', 2), ('bad-chord', 1.5),
-                                ('garbage-appended', 4), ('separator', 1.5), ('wrong-order-trailing', 1), ('null-like', 1.2)]) if kinds is None else rng.choice(kinds)
+                                ('garbage-appended', 4), ('separator', 1.5), ('wrong-order-trailing', 1), ('null-like', 1.2), ('walk-raises', 1.0),
+                                ('unicode-digit', 1.2)]) if kinds is None else rng.choice(kinds)
+    if kind == 'walk-raises':
+        return rng.choice(WALK_RAISES), kind, 'tail'
+    if kind == 'unicode-digit':
+        # the only defect is a non-ASCII decimal digit where a duration digit stood (or in front of a plain note)
+        ds = [i for i, ch in enumerate(carrier) if ch in FULLWIDTH]
+        if ds and not carrier.startswith('*'):
+            i = rng.choice(ds)
+            return carrier[:i] + rng.choice([FULLWIDTH[carrier[i]], '٤']) + carrier[i + 1:], kind, 'strict'
+        return rng.choice(['８D', '٤d#', '４c', '１６ee-']), kind, 'strict'
     if kind == 'null-like':
         # made of placeholder characters only, but not a placeholder: must not be mistaken for an empty cell anywhere
         return rng.choice(NULL_LIKE), kind, 'tail'
@@ -126,7 +139,7 @@ class C12:
                    'null-row suppression of the exporter is recomputed from the abstract document (rows whose exported cells are all . or *)']
     PROBES = ['fault_after_split', 'fault_in_subspine', 'fault_after_join', 'adjacent_faults', 'fault_in_non_kern', 'fault_in_last_row',
               'fault_in_bar_row', 'fault_in_interp_row', 'two_imports_one_process', 'history_err_then_valid', 'blank_line_before_fault',
-              'fault_in_second_kern_spine', 'later_kern_cell_after_fault', 'dropped_row_resurrected']
+              'fault_in_second_kern_spine', 'later_kern_cell_after_fault', 'dropped_row_resurrected', 'leading_blank_line']
 
     # ---------------------------------------------------------------- plan
     def gen_plan(self, seed, index, tier):
@@ -176,7 +189,7 @@ class C12:
             if erng.random() < 0.12:
                 first = min(f['row'] for f in faults)
                 n_blank = erng.choice([1, 1, 2])
-                blank = sorted(erng.randrange(1, first + 1) for _ in range(n_blank))
+                blank = sorted(erng.randrange(0, first + 1) for _ in range(n_blank))      # 0 = the text BEGINS with a blank line
         return {'property': self.PROPERTY, 'mode': 'doc', 'config': 'fault_free' if fault_free else 'fault_injecting',
                 'doc': doc.to_json(), 'eol': erng.choice(['\n', '\n', '\n', '\r\n']), 'final_newline': erng.random() < 0.8,
                 'faults': faults, 'blank_lines': blank, 'warnings': 'error' if erng.random() < 0.08 else 'default'}
@@ -344,6 +357,8 @@ class C12:
                 bump(probes, 'fault_in_second_kern_spine')
             if blank and any(b <= ri for b in blank):
                 bump(probes, 'blank_line_before_fault')
+            if blank and 0 in blank:
+                bump(probes, 'leading_blank_line')
             if hdr in KERN_PARSED:
                 # is there a later cell parsed by the same cached importer (same header text)?
                 later = False
